@@ -6,8 +6,11 @@ cd /verif
 export GOFLAGS=-mod=mod GOPROXY=off GOSUMDB=off GOTOOLCHAIN=local
 wt=$(mktemp -d /tmp/seedwt.XXXX); rmdir $wt
 git -C /repo worktree add --detach $wt HEAD >/dev/null 2>&1 || exit 2
+# snapshot of the machinery (engine binary, contracts, lock files, known findings): the run is not disturbed by work
+# going on in /verif meanwhile
+snap=$(mktemp -d /tmp/vsnap.XXXX); mkdir -p $snap/bin; cp bin/hv $snap/bin/; cp -r contracts check obligations.lock.json locals.lock.json known_findings.json MANIFEST.json $snap/
 od=$(mktemp -d /tmp/seedout.XXXX)
-trap 'git -C /repo worktree remove --force '$wt' >/dev/null 2>&1; rm -rf '$od EXIT
+trap 'git -C /repo worktree remove --force '$wt' >/dev/null 2>&1; rm -rf '$od' '$snap EXIT
 out=seeded/RESULTS.txt; [ -n "${1:-}" ] || : > $out
 for d in seeded/C*/; do
   n=$(basename $d); id=${n%%-*}
@@ -15,7 +18,7 @@ for d in seeded/C*/; do
   if [ -n "${1:-}" ] && [[ "$n" != $1* ]]; then continue; fi
   git -C $wt checkout -q -- . ; git -C $wt clean -fdq
   if ! git -C $wt apply /verif/$d/patch.diff; then line="$n: patch does not apply"; else
-    res=$(HV_REPO=$wt HV_OUT=$od ./check $id quick 2>&1)
+    res=$(HV_REPO=$wt HV_OUT=$od $snap/check $id quick 2>&1)
     if echo "$res" | grep -q "^VIOLATION property=$id"; then
       obs=$(echo "$res" | grep "^  obligation" | sed 's/^  obligation //' | cut -d' ' -f1-2 | tr '\n' ';' | cut -c1-400)
       rep=""; echo "$res" | grep "^VIOLATION" | grep -qv "no-failing-input-found" && rep=" REPLAYED"
